@@ -92,10 +92,10 @@ def coq_prepare():
             raise RuntimeError("coq_makefile failed: " + out)
 
 
-def coq_make(targets, timeout=3000):
+def coq_make(targets, timeout=3000, keep_going=False):
     with Lock():
         coq_prepare()
-        rc, out, dt = run(["make", "-j16"] + targets, cwd=COQ, timeout=timeout)
+        rc, out, dt = run(["make", "-j16"] + (["-k"] if keep_going else []) + targets, cwd=COQ, timeout=timeout)
     return rc == 0, out, dt
 
 
